@@ -364,7 +364,7 @@ func TestVerifC16(t *testing.T) {
 			}
 		}
 		r := vNewRand(vSeed())
-		n := vN(160, 2000)
+		n := vN(120, 1600)
 		for i := 0; i < n; i++ {
 			runOne(c16Gen(r.Fork(), i%2 == 1))
 		}
